@@ -9,6 +9,7 @@ mod c02;
 mod c04;
 mod c05;
 mod c06;
+mod c07;
 mod c11;
 mod c12;
 mod c20;
@@ -39,6 +40,8 @@ fn main() {
         "c11-record" => c11::record(rest),
         "c06-run" => c06::run(rest),
         "c20-run" => c20::run(rest),
+        "c07-replay" => c07::replay(rest),
+        "c07-record" => c07::record(rest),
         "c12-replay" => c12::replay(rest),
         "c12-record" => c12::record(rest),
         other => {
